@@ -59,6 +59,7 @@ pub fn gen_base(env: &Env, prop: &str, run_seed: u64, teardown: bool) -> Base {
     // small universes and capacities so that reallocation, eviction and collisions are all near
     cfg.universe = 1 + rng.below(8) as u32;
     cfg.prefill = 0;
+    cfg.marathon = 0;
     if let Ctor::WithCapacityAndHasher(n) = cfg.ctor {
         if n > 30 {
             cfg.ctor = Ctor::WithCapacityAndHasher(n % 16);
@@ -184,7 +185,7 @@ pub fn usage_suffix(cfg: &Config, rng: &mut Rng, target: u8) -> Vec<Op> {
     }
     match rng.below(5) {
         0 => ops.push(mk(OpKind::Clear)),
-        1 => ops.push(mk(OpKind::IterScript { kind: IterKind::Drain, script: vec![true, false], end: EndMode::Drop })),
+        1 => ops.push(mk(OpKind::IterScript { kind: IterKind::Drain, script: vec![true, false], end: EndMode::Drop, skips: vec![] })),
         2 => ops.push(mk(OpKind::Reserve { a: 20 })),
         3 => ops.push(mk(OpKind::ShrinkToFit)),
         _ => ops.push(mk(OpKind::RemoveLru)),
@@ -226,7 +227,7 @@ pub fn forget_cases(base: &Base, rng: &mut Rng) -> Vec<FaultCase> {
             for script in scripts {
                 let mut ops = base.ops.clone();
                 let at = ops.len();
-                ops.push(Op { target, kind: OpKind::IterScript { kind, script, end: EndMode::Forget }, fuse: None });
+                ops.push(Op { target, kind: OpKind::IterScript { kind, script, end: EndMode::Forget, skips: vec![] }, fuse: None });
                 let mut srng = Rng::new(rng.next_u64());
                 ops.extend(usage_suffix(&base.cfg, &mut srng, target));
                 cases.push(FaultCase { ops, at, kind: "iterator_forgotten" });
@@ -292,7 +293,7 @@ pub fn script_cases(base: &Base, rng: &mut Rng) -> Vec<FaultCase> {
             for script in scripts {
                 let mut ops = base.ops.clone();
                 let at = ops.len();
-                ops.push(Op { target, kind: OpKind::IterScript { kind, script, end: EndMode::Drop }, fuse: None });
+                ops.push(Op { target, kind: OpKind::IterScript { kind, script, end: EndMode::Drop, skips: vec![] }, fuse: None });
                 if !kind.borrowing() {
                     let mut srng = Rng::new(rng.next_u64());
                     let mut suffix = usage_suffix(&base.cfg, &mut srng, target);
